@@ -152,7 +152,7 @@ def run(tier):
         if r["outcome"] == "return":   # judged against the documented denotation of the strings it accepted
             n = r["n"]
             given = [sum(((c in "XY") << q) + (((c in "ZY") << q) * impl.W) for q, c in enumerate(s.lstrip("+-"))) + (impl.W2 if s.startswith("-") else 0) for s in r["strs"]]
-            mreq.append({"op": "request", "n": n, "given": given, "api": r["api"], "conn": "all", "fmt": "strings", "outcome": "return", "gates": r["gates"], "validate": -1, "exc": ""})
+            mreq.append({"op": "request", "n": n, "given": given, "api": r["api"], "conn": "all", "fmt": "strings", "outcome": "return", "gates": r["gates"], "validate": -1, "ctorv": -1, "exc": ""})
         else:
             ck.accepted()
     if mreq:
